@@ -35,6 +35,8 @@ def run(tier, seed, repo, focus=None):
         for (n1, n2) in ((12, 12), (15, 7), (6, 14)):
             scns.append({"seed": seed + s, "n1": n1, "n2": n2, "k": 3, "lattice": bool(s % 2)})
     drivers.run_scenarios(res, "nnps_order", scns, known)
+    scns = [{"seed": seed + s, "n": 14, "k": 5, "sampling_times": 20, "alpha": 0.2} for s in range(12 if quick else 80)]
+    drivers.run_scenarios(res, "row_order_replay", scns, known)
     # large batches (above typical block / chunk sizes: positional chunking must not leak order either)
     scns = [{"det": name, "seed": seed, "rows": rows} for name in ("KDQTreePartitioner", "KdqTreeBatch", "HDDDM")
             for rows in ((9000, 17000) if quick else (5000, 9000, 17000, 33000, 70000))]
